@@ -22,6 +22,7 @@ from concurrent.futures import ProcessPoolExecutor
 from pathlib import Path
 
 COPY = ("xsdata", "docs", "pyproject.toml")
+TWIN_KINDS = ("unparse", "pad", "rename-locals", "negate-if")
 
 
 def load_mutants(pid: str) -> list[dict]:
@@ -205,6 +206,33 @@ class _NegateIf(ast.NodeTransformer):
         return node
 
 
+NEUTRAL = Path(__file__).resolve().parent.parent / "neutral"
+
+
+def load_neutral() -> list[str]:
+    """Behaviour-preserving refactorings written by independent agents (see DESIGN.md section 7.3): every check must stay silent on each."""
+    return sorted(str(p) for p in NEUTRAL.glob("*/*.diff")) if NEUTRAL.is_dir() else []
+
+
+def run_neutral(args: tuple[str, str, str]) -> dict:
+    import subprocess
+
+    pid, patch, src_root, base = args
+    root = make_copy(Path(src_root))
+    nid = "neutral:" + "/".join(patch.split("/")[-2:])
+    try:
+        r = subprocess.run(["git", "apply", "--include=xsdata/*", "--include=docs/*", patch], cwd=root, capture_output=True, text=True)
+        if r.returncode != 0:
+            return {"id": nid, "status": "skipped", "why": "patch no longer applies to the current tree"}
+        base_code, base_keys = base
+        code, ev, out = _run(pid, root)
+        same = code == base_code and _violation_keys(ev) == base_keys
+        return {"id": nid, "status": "same" if same else "differs",
+                "why": "" if same else f"exit {code} vs {base_code}; {ev.get('error') or ''} {_violation_keys(ev)[:3]} vs {base_keys[:3]}"}
+    finally:
+        shutil.rmtree(root, ignore_errors=True)
+
+
 def run_twin(args: tuple[str, str, str]) -> dict:
     pid, kind, src_root = args
     root = make_copy(Path(src_root))
@@ -240,12 +268,16 @@ def run_for_property(pid: str, repo_root: str | None = None, jobs: int | None = 
     src_root = str(Path(repo_root or os.environ.get("XSA_REPO") or "/repo").resolve())
     mutants = load_mutants(pid)
     seeds = load_seeds(pid)
+    neutral = load_neutral()
     jobs = jobs or min(16, os.cpu_count() or 4)
     results: list[dict] = []
+    bc, bev, _ = _run(pid, Path(src_root))
+    base = (bc, _violation_keys(bev))
     with ProcessPoolExecutor(max_workers=jobs) as ex:
         futs = [ex.submit(run_mutant, (pid, m, src_root)) for m in mutants]
         futs += [ex.submit(run_seed, (pid, sd, src_root)) for sd in seeds]
-        futs += [ex.submit(run_twin, (pid, k, src_root)) for k in ("unparse", "pad")]
+        futs += [ex.submit(run_twin, (pid, k, src_root)) for k in TWIN_KINDS]
+        futs += [ex.submit(run_neutral, (pid, n, src_root, base)) for n in neutral]
         for f in futs:
             results.append(f.result())
     failed = [r for r in results if r["status"] in ("missed", "differs", "analysis-error", "broken-mutant")]
@@ -257,12 +289,14 @@ def run_for_property(pid: str, repo_root: str | None = None, jobs: int | None = 
         "seeds_documented_miss": [r["id"] for r in results if r["status"] == "documented-miss"],
         "skipped": [r for r in results if r["status"] == "skipped"],
         "twins": sum(1 for r in results if r["id"].startswith("twin-")),
-        "twins_same": sum(1 for r in results if r["status"] == "same"),
+        "twins_same": sum(1 for r in results if r["status"] == "same" and r["id"].startswith("twin-")),
+        "neutral": len(neutral),
+        "neutral_same": sum(1 for r in results if r["status"] == "same" and r["id"].startswith("neutral:")),
         "failed": failed,
         "results": results,
     }
     print(f"[{pid}] selftest: {summary['detected']}/{summary['mutants']} mutants detected, {summary['seeds_detected']}/{summary['seeds']} seeded changes detected, "
-          f"{summary['twins_same']}/{summary['twins']} twins silent, {len(summary['skipped'])} skipped, {len(failed)} failed")
+          f"{summary['twins_same']}/{summary['twins']} twins silent, {summary['neutral_same']}/{summary['neutral']} neutral refactorings silent, {len(summary['skipped'])} skipped, {len(failed)} failed")
     for r in failed:
         print(f"  SELFTEST-FAIL {r['id']}: {r['status']} {r.get('why', '')}")
     return summary
